@@ -739,7 +739,11 @@ func (v *Verifier) evalClauseConcrete(fn *ssa.Function, c *Contract, ci int, val
 	for _, r := range c.Requires {
 		hyp = append(hyp, env.evalBool(r.Expr))
 	}
+	g0 := ghostReads
 	goal := env.evalBool(c.Ensures[ci].Expr)
+	if ghostReads != g0 {
+		return false, "the clause reads ghost state (a history variable), which a run of the real code does not produce: not re-evaluated"
+	}
 	sc := &Script{Prelude: loadPreludeCached, Asserts: append(hyp, Not(goal))}
 	text := sc.Render("", false)
 	tmp, _ := os.CreateTemp("", "govc-concrete-*.smt2")
